@@ -2,8 +2,8 @@ SPECIFICATION Spec
 CONSTANTS
   MaxLen = 3
   Alphabet = {0, 1}
-  M_MaintenanceKeepsTail = FALSE
-  M_MaintenanceSkipsBusyJob = TRUE
+  M_MaintenanceKeepsTail = TRUE
+  M_MaintenanceSkipsBusyJob = FALSE
   Ms = {0, 1, 2, 3}
 INVARIANTS TypeOK LinesExactlyOnce CallsAreLines TailIsRemainder AccumBounded
 CHECK_DEADLOCK FALSE
